@@ -432,8 +432,11 @@ func (sc *serverConn) readLoop() (err error) {
 				continue
 			}
 		case FrameWindowUpdate:
+			// An increment of 0 is a connection error on the connection's
+			// window and a stream error on a stream's (RFC 7540 6.9): the
+			// stream loop answers the second kind, the stream is its to reset.
 			win := int64(fr.Body().(*WindowUpdate).Increment())
-			if win == 0 {
+			if win == 0 && fr.Stream() == 0 {
 				sc.writeGoAway(0, ProtocolError, "window increment of 0")
 				ReleaseFrameHeader(fr)
 				return errConnClosed
@@ -1356,7 +1359,7 @@ func (sc *serverConn) handleFrame(strm *Stream, fr *FrameHeader) error {
 
 		win := int64(fr.Body().(*WindowUpdate).Increment())
 		if win == 0 {
-			return NewGoAwayError(ProtocolError, "window increment of 0")
+			return NewResetStreamError(ProtocolError, "window increment of 0")
 		}
 
 		if atomic.AddInt64(&strm.window, win) > 1<<31-1 {
